@@ -87,6 +87,9 @@ func InitialDir(kind string, cfg reftable.Config) (map[string][]byte, error) {
 		case "cancel":
 			// the two oldest tables cancel out entirely (create then delete): compacting them yields no table
 			ids = []string{"name:refs/c", "del:refs/c", "i3"}
+		case "cancel2":
+			// the whole stack cancels out: compacting it leaves no table at all
+			ids = []string{"name:refs/c", "del:refs/c"}
 		case "high2":
 			ids = []string{"i1", "i2"}
 		case "four":
